@@ -60,8 +60,8 @@ def run_ops(binp, cases, tag, timeout=1800):
     return res
 
 
-def graph_of_tree(a2l_tree):
-    return gm.extract(gm.module_of(a2l_tree))
+def graph_of_tree(a2l_tree, k=0):
+    return gm.extract(gm.module_of(a2l_tree, k))
 
 
 def judge(events, cfg, tag):
